@@ -931,6 +931,22 @@ class PathController:
         self._assert(S.cmp('eq', v, S.iconst(vals[0], v.width)))
         return vals[0]
 
+    def witness_value(self, v):
+        """one value of the symbolic integer v admitted by the current path condition (no constraint is added)"""
+        try:
+            e, deps = self.z.tr(v)
+            s = self._solver
+            s.push()
+            for d in deps:
+                if d not in self._asserted_defs: s.add(self.z.def_list[d][1])
+            r = s.check()
+            self.z.queries += 1
+            val = s.model().eval(e, model_completion=True).as_long() if r == z3.sat else None
+            s.pop()
+            return val
+        except Exception:
+            return None
+
     def _enumerate_fresh(self, v):
         s2 = z3.Solver()
         s2.set('timeout', max(self.branch_timeout_ms, 20000))
